@@ -59,6 +59,12 @@ pub fn next_seq() -> u64 {
 /// Maximum time an armed gate holds a thread before giving up (the run is then
 /// inconclusive, see [`timeouts`]).
 pub const HOLD_LIMIT: Duration = Duration::from_secs(20);
+static HOLD_LIMIT_MS: AtomicU64 = AtomicU64::new(20_000);
+
+/// Changes the maximum time an armed gate holds a thread (default [`HOLD_LIMIT`]).
+pub fn set_hold_limit(d: Duration) {
+    HOLD_LIMIT_MS.store(d.as_millis() as u64, Ordering::SeqCst);
+}
 
 fn on_pause(name: &'static str) {
     let c = ctl();
@@ -73,7 +79,7 @@ fn on_pause(name: &'static str) {
         st.hold_next -= 1;
         st.waiting += 1;
         c.cv.notify_all();
-        let deadline = Instant::now() + HOLD_LIMIT;
+        let deadline = Instant::now() + Duration::from_millis(HOLD_LIMIT_MS.load(Ordering::SeqCst));
         loop {
             let st = g.get_mut(name).expect("gate");
             if st.tokens > 0 {
